@@ -29,6 +29,10 @@ def run(chk, replay=None):
             if 0 in e["wz"]:
                 chk.nontrivial(("any", e["T"], tuple(e["wz"]), tuple(e["idx"][:6])))
             continue
+        if e["e"] == "McNorm":
+            npicks += 600
+            chk.nontrivial(("norm", e["T"], e["run"]))
+            continue
         if e["e"] == "PickTop":
             npicks += 5
             chk.nontrivial(("top", e["T"], e["lead"], e["trail"]))
@@ -42,7 +46,7 @@ def run(chk, replay=None):
     chk.cov["selections_checked"] = npicks
     for e in rows[:1] + [r for r in rows if r["e"] == "McPick" and 0 in r["w"]][:1] + [r for r in rows if r["e"] == "Count"][:1]:
         chk.sample(e)
-    ok, matched, res = chk.validate("Trace_C09", trace, need_actions=("Pick", "McPick", "Count", "PickAny", "PickWide", "PickTop"))
+    ok, matched, res = chk.validate("Trace_C09", trace, need_actions=("Pick", "McPick", "Count", "PickAny", "PickWide", "PickTop", "McNorm"))
     if not ok:
         bad = rows[matched] if matched < len(rows) else None
         chk.violation("C09:pick", trace, "event %d not admissible under Select.tla: %s" % (matched + 1, str(bad)[:600]))
